@@ -33,6 +33,94 @@ def units_for(prop):
     return out
 
 
+def kani_units_for(prop):
+    out = []
+    for kj in sorted(glob.glob(os.path.join(VERIF, 'units', '*', 'kani.json'))):
+        if prop in json.load(open(kj)).get('props', []):
+            out.append(os.path.dirname(kj))
+    return out
+
+
+def run_kani_unit(unit_dir, tier):
+    """Kani function contracts / harnesses on the REAL crate: attributes and a #[cfg(kani)] module are injected into a scratch
+    copy of the repository (never into /repo); every harness is one obligation; loop-free full-domain harnesses are complete."""
+    import subprocess
+    unit = os.path.basename(unit_dir)
+    cfg = json.load(open(os.path.join(unit_dir, 'kani.json')))
+    res = {'unit': unit + '(kani)', 'status': 'ok', 'undecided': [], 'failures': [], 'obligations': [], 'assumptions': [],
+           'info': {'rewrites': {}, 'stubs': [], 'types': [], 'replacements': [], 'hints_dropped': []}, 'solver_ms': 0, 'wall': 0.0,
+           'functions': [], 'vacuity': {'probes': 0, 'failed_as_required': 0}, 'kani': {'complete': [], 'bounded': []}}
+    t0 = time.time()
+    try:
+        repo = vlib.REPO
+        sc = os.path.join(BUILD, 'kani', unit, 'repo')
+        os.makedirs(sc, exist_ok=True)
+        p = subprocess.run(['rsync', '-a', '--delete', '--exclude', 'target', '--exclude', '.git', repo + '/', sc + '/'], capture_output=True, text=True)
+        if p.returncode != 0:
+            raise Undecided('rsync failed: ' + p.stderr[-300:])
+        for inj in cfg.get('inject', []):
+            fp = os.path.join(sc, inj['file'])
+            if not os.path.exists(fp):
+                raise Undecided('lost anchor: %s not found' % inj['file'])
+            src = open(fp).read()
+            for a in inj.get('attrs', []):
+                if src.count(a['before']) != 1:
+                    raise Undecided('lost anchor: signature `%s` found %d times in %s' % (a['before'].strip(), src.count(a['before']), inj['file']))
+                src = src.replace(a['before'], a['text'] + '\n' + a['before'])
+            src += '\n' + open(os.path.join(unit_dir, inj['append'])).read()
+            open(fp, 'w').write(src)
+        hs = [h for h in cfg['harnesses'] if tier == 'thorough' or not h.get('thorough_only')]
+        cmd = ['cargo', 'kani'] + cfg.get('flags', []) + ['--output-format=terse', '-j', str(cfg.get('jobs', 8))]
+        for h in hs:
+            cmd += ['--harness', h['name']]
+        env = dict(os.environ, CARGO_NET_OFFLINE='true')
+        res['checker_cmd'] = ' '.join(cmd) + '   (in a scratch copy of the repository with units/%s/%s injected)' % (unit, ','.join(i['append'] for i in cfg.get('inject', [])))
+        try:
+            p = subprocess.run(cmd, cwd=sc, capture_output=True, text=True, timeout=cfg.get('timeout_s', 1200), env=env)
+        except subprocess.TimeoutExpired:
+            raise Undecided('cargo kani timed out after %ds' % cfg.get('timeout_s', 1200))
+        out = p.stdout + p.stderr
+        failed = set(m.group(1).split('::')[-1] for m in re.finditer(r'Verification failed for - (\S+)', out))
+        m = re.search(r'Complete - (\d+) successfully verified harnesses, (\d+) failures, (\d+) total', out)
+        if not m:
+            raise Undecided('cargo kani did not complete (compile error / tool error): ' + out[-700:])
+        if int(m.group(3)) != len(hs):
+            raise Undecided('cargo kani ran %s harnesses, expected %d' % (m.group(3), len(hs)))
+        res['assumptions'] = ['kani: ' + a for a in cfg.get('assumptions', [])]
+        for h in hs:
+            oid = '%s::kani::%s' % (unit, h.get('label', h['name']))
+            ok = h['name'] not in failed
+            rec = {'id': oid, 'fn': h.get('fn', h['name']), 'kind': 'kani-harness', 'where': 'complete (loop-free, full domain)' if h.get('complete') else 'BOUNDED: ' + h.get('bound', ''),
+                   'text': h.get('what', ''), 'status': 'discharged' if ok else 'failed', 'backend': 'kani/cbmc'}
+            if h.get('complete'):
+                res['obligations'].append(rec)
+                res['kani']['complete'].append(h['name'])
+            else:
+                res['kani']['bounded'].append({'harness': h['name'], 'bound': h.get('bound', ''), 'passed': ok})
+            if not ok:
+                detail = ''
+                mm = re.search(r'Checking harness \S*%s\.\.\..*?(VERIFICATION RESULT:.*?VERIFICATION:- FAILED)' % re.escape(h['name']), out, re.S)
+                # concrete counterexample for the replay file
+                cex = ''
+                try:
+                    pc = subprocess.run(['cargo', 'kani'] + cfg.get('flags', []) + ['-Z', 'concrete-playback', '--concrete-playback=print', '--harness', h['name']],
+                                        cwd=sc, capture_output=True, text=True, timeout=600, env=env)
+                    mc = re.search(r'Concrete playback unit test.*?```(.*?)```', pc.stdout + pc.stderr, re.S)
+                    cex = mc.group(1).strip() if mc else ''
+                except Exception:
+                    pass
+                res['failures'].append({'obligation': oid, 'kind': 'kani', 'fn': h.get('fn'), 'message': 'Kani: contract / assertion refuted in harness %s' % h['name'],
+                                        'line': 0, 'text': h.get('what', ''), 'rendered': (mm.group(1)[-1500:] if mm else ''), 'counterexample': cex})
+    except Undecided as e:
+        res['undecided'].append(str(e))
+    if res['failures']:
+        res['status'] = 'fail'
+    elif res['undecided']:
+        res['status'] = 'undecided'
+    res['wall'] = time.time() - t0
+    return res
+
+
 def prop_of_label(label):
     if label:
         m = re.match(r'(C\d\d)\.', label)
@@ -357,13 +445,16 @@ def main():
     t0 = time.time()
     cfg = CFG.get(prop, {})
     unit_dirs = units_for(prop)
-    if not unit_dirs:
+    kani_dirs = kani_units_for(prop)
+    if not unit_dirs and not kani_dirs:
         print('UNDECIDED property=%s reason=no unit serves this property' % prop)
         return 2
     known = [k for k in load_known()['findings'] if k.get('property') == prop and k.get('status') == 'open']
     known_ids = {k['obligation']: k for k in known}
-    with cf.ThreadPoolExecutor(max(1, min(8, len(unit_dirs)))) as ex:
+    with cf.ThreadPoolExecutor(max(1, min(8, len(unit_dirs) + len(kani_dirs)))) as ex:
+        fk = [ex.submit(run_kani_unit, u, tier) for u in kani_dirs]
         results = list(ex.map(lambda u: run_unit(u, tier, relock, tuple(known_ids)), unit_dirs))
+        results += [f.result() for f in fk]
 
     obligations, failures, undecided = [], [], []
     for r in results:
@@ -430,7 +521,7 @@ def main():
             'units': [{'unit': r['unit'], 'status': r['status'], 'generated_file': r.get('generated'), 'rewrites_applied': r['info'].get('rewrites'),
                        'pinned_replacements': r['info'].get('replacements'), 'stubs': r['info'].get('stubs'), 'types_extracted': r['info'].get('types'),
                        'hints_dropped': r['info'].get('hints_dropped'), 'vacuity': r['vacuity'], 'solver_ms': r['solver_ms'], 'wall_s': round(r['wall'], 2),
-                       'verus_summary': r.get('verus_summary'), 'rlimit_recheck': r.get('rlimit_recheck')} for r in results],
+                       'verus_summary': r.get('verus_summary'), 'rlimit_recheck': r.get('rlimit_recheck'), 'kani': r.get('kani')} for r in results],
             'not_covered': cfg.get('not_covered', []),
             'undecided': undecided,
             'failed_obligations': [f['obligation'] for f in failures],
@@ -473,7 +564,8 @@ def main():
                    'failed_obligations': new_fail}, open(rp, 'w'), indent=1)
         for f in new_fail:
             print('FAILED-OBLIGATION %s :: %s :: %s' % (f['obligation'], f['message'], f['text']))
-        print('VIOLATION property=%s replay=%s no-failing-input-found' % (prop, rp))
+        has_cex = any(f.get('counterexample') for f in new_fail)
+        print('VIOLATION property=%s replay=%s%s' % (prop, rp, '' if has_cex else ' no-failing-input-found'))
         return 1
     if undecided:
         for u in undecided:
